@@ -146,6 +146,8 @@ struct Local {
     fill_guards: Vec<Guard>,
     closures: u32,
     cur_op: usize,
+    /// events built ahead of being recorded (`Op::BuildEvent`)
+    built_events: HashMap<String, Event>,
 }
 
 fn to_cow(p: &Props) -> Vec<(String, String)> {
@@ -187,6 +189,8 @@ pub struct Script {
     total: u32,
     pending_first: bool,
     toggled: bool,
+    /// (sinks) poll_ready, start_send and poll_flush return Err
+    failing: bool,
     tables: Arc<Tables>,
 }
 
@@ -274,15 +278,19 @@ impl Sink<u32> for Script {
     type Error = ();
     fn poll_ready(mut self: Pin<&mut Self>, _cx: &mut Context<'_>) -> Poll<Result<(), ()>> {
         self.call("r");
-        Poll::Ready(Ok(()))
+        Poll::Ready(if self.failing { Err(()) } else { Ok(()) })
     }
     fn start_send(mut self: Pin<&mut Self>, _item: u32) -> Result<(), ()> {
         self.call("s");
-        Ok(())
+        if self.failing {
+            Err(())
+        } else {
+            Ok(())
+        }
     }
     fn poll_flush(mut self: Pin<&mut Self>, _cx: &mut Context<'_>) -> Poll<Result<(), ()>> {
         self.call("f");
-        Poll::Ready(Ok(()))
+        Poll::Ready(if self.failing { Err(()) } else { Ok(()) })
     }
     fn poll_close(mut self: Pin<&mut Self>, _cx: &mut Context<'_>) -> Poll<Result<(), ()>> {
         self.call("c");
@@ -396,9 +404,25 @@ fn exec(op: &Op, l: &mut Local, t: &Arc<Tables>) -> Result<ObsVal, String> {
             });
             Ok(ObsVal::Unit)
         }
+        Op::SetReporter => {
+            let s = sched();
+            s.world().actors[l.actor].blocking_call = true;
+            fastrace::set_reporter(
+                crate::sched::CaptureReporter,
+                fastrace::collector::Config::default()
+                    .cancelable(crate::explore::cancelable())
+                    .report_interval(std::time::Duration::from_secs(1_000_000_000)),
+            );
+            s.world().actors[l.actor].blocking_call = false;
+            Ok(ObsVal::Unit)
+        }
+        Op::BuildEvent { name } => {
+            l.built_events.insert(name.clone(), Event::new(name.clone()));
+            Ok(ObsVal::Unit)
+        }
         Op::AddEvent { slot, name, props } => {
             let s = get_span(t, *slot)?;
-            let mut e = Event::new(name.clone());
+            let mut e = l.built_events.remove(name).unwrap_or_else(|| Event::new(name.clone()));
             if !props.is_empty() {
                 e = if props.len() == 1 { e.with_property(counted1!(props)) } else { e.with_properties(counted!(props)) };
             }
@@ -477,7 +501,7 @@ fn exec(op: &Op, l: &mut Local, t: &Arc<Tables>) -> Result<ObsVal, String> {
             Ok(ObsVal::Unit)
         }
         Op::LocalAddEvent { name, props } => {
-            let mut e = Event::new(name.clone());
+            let mut e = l.built_events.remove(name).unwrap_or_else(|| Event::new(name.clone()));
             if !props.is_empty() {
                 e = if props.len() == 1 { e.with_property(counted1!(props)) } else { e.with_properties(counted!(props)) };
             }
@@ -509,6 +533,7 @@ fn exec(op: &Op, l: &mut Local, t: &Arc<Tables>) -> Result<ObsVal, String> {
                 total: *polls,
                 pending_first: false,
                 toggled: false,
+                failing: false,
                 tables: t.clone(),
             };
             let f: Pin<Box<dyn Future<Output = u32> + Send>> = if *inner_enter_on_poll {
@@ -526,6 +551,7 @@ fn exec(op: &Op, l: &mut Local, t: &Arc<Tables>) -> Result<ObsVal, String> {
                 total: *polls,
                 pending_first: false,
                 toggled: false,
+                failing: false,
                 tables: t.clone(),
             };
             let f: Pin<Box<dyn Future<Output = u32> + Send>> =
@@ -542,6 +568,7 @@ fn exec(op: &Op, l: &mut Local, t: &Arc<Tables>) -> Result<ObsVal, String> {
                 total: *polls,
                 pending_first: false,
                 toggled: false,
+                failing: false,
                 tables: t.clone(),
             };
             let f: Pin<Box<dyn Future<Output = u32> + Send>> = Box::pin(script.in_span(si).in_span(so));
@@ -570,6 +597,7 @@ fn exec(op: &Op, l: &mut Local, t: &Arc<Tables>) -> Result<ObsVal, String> {
                 total: *items + 1,
                 pending_first: *pending_first,
                 toggled: false,
+                failing: false,
                 tables: t.clone(),
             };
             let s: Pin<Box<dyn Stream<Item = u32> + Send>> = Box::pin(fastrace_futures::StreamExt::in_span(script, span));
@@ -591,7 +619,7 @@ fn exec(op: &Op, l: &mut Local, t: &Arc<Tables>) -> Result<ObsVal, String> {
             lock(&t.futs).insert(*fut, fb);
             Ok(r)
         }
-        Op::MkSink { fut, slot, tag, pending_first } => {
+        Op::MkSink { fut, slot, tag, pending_first, failing } => {
             use fastrace_futures::SinkExt;
             let span = take_span(t, *slot)?;
             let script = Script {
@@ -600,6 +628,7 @@ fn exec(op: &Op, l: &mut Local, t: &Arc<Tables>) -> Result<ObsVal, String> {
                 total: 0,
                 pending_first: *pending_first,
                 toggled: false,
+                failing: *failing,
                 tables: t.clone(),
             };
             let s: Pin<Box<dyn Sink<u32, Error = ()> + Send>> =
@@ -755,7 +784,7 @@ impl Drop for ExitHook {
     fn drop(&mut self) {
         // Runs while the thread's local storage is being torn down. A panic out of a thread-local
         // destructor aborts the process, so every call is caught and recorded.
-        let mut l = Local { actor: self.actor, guards: Vec::new(), fill_guards: Vec::new(), closures: 0, cur_op: usize::MAX };
+        let mut l = Local { actor: self.actor, guards: Vec::new(), fill_guards: Vec::new(), closures: 0, cur_op: usize::MAX, built_events: HashMap::new() };
         for (i, op) in self.ops.iter().enumerate() {
             let t = self.tables.clone();
             let r = catch_unwind(AssertUnwindSafe(|| exec(op, &mut l, &t)));
@@ -907,7 +936,7 @@ pub fn actor_main(id: usize, actor: Actor, t: Arc<Tables>) {
     let s = sched();
     crate::sched::set_me(Some(id));
     s.wait_start(id);
-    let mut l = Local { actor: id, guards: Vec::new(), fill_guards: Vec::new(), closures: 0, cur_op: 0 };
+    let mut l = Local { actor: id, guards: Vec::new(), fill_guards: Vec::new(), closures: 0, cur_op: 0, built_events: HashMap::new() };
     let t0 = t.t0.unwrap();
     for (i, op) in actor.ops.iter().enumerate() {
         l.cur_op = i;
